@@ -22,6 +22,10 @@ type c09World struct {
 	pw     *vh.PoolWorld
 	reg    map[string]string // host -> connection it most recently registered on
 	closed map[string]bool
+	// per connection: the hosts that registered on it, ordered by their last registration there.
+	// Part of the state key: an implementation may (and this one does) keep reverse bookkeeping per
+	// connection, so two histories with the same host->connection map are not the same state.
+	onConn map[string][]string
 }
 
 var c09Hosts = []string{"A", "B"}
@@ -38,7 +42,7 @@ func c09New() *c09World {
 	vsched.ResetClock(0)
 	pw := vh.NewPoolWorld(vh.PoolConfig{Driver: vh.Memory, NoManager: true})
 	pw.Raw.SetNode(store.Node{ID: store.NodeID(vh.Identities()[0].NodeID), Kind: "geth", LastSeen: vsched.Now()})
-	return &c09World{pw: pw, reg: map[string]string{}, closed: map[string]bool{}}
+	return &c09World{pw: pw, reg: map[string]string{}, closed: map[string]bool{}, onConn: map[string][]string{}}
 }
 
 func (w *c09World) apply(ev string) error {
@@ -50,6 +54,13 @@ func (w *c09World) apply(ev string) error {
 		_, err := w.pw.Connect(c09Ident(h), vh.ConnectOpts{Host: true, Service: conn.Service()})
 		if err == nil {
 			w.reg[h] = c
+			var l []string
+			for _, x := range w.onConn[c] {
+				if x != h {
+					l = append(l, x)
+				}
+			}
+			w.onConn[c] = append(l, h)
 		}
 		return err
 	case "close":
@@ -162,6 +173,9 @@ func c09BFS(depth, shard, nshards int) vh.Unit {
 				}
 				for c := range w.closed {
 					ks = append(ks, "x"+c)
+				}
+				for c, l := range w.onConn {
+					ks = append(ks, c+":"+strings.Join(l, ">"))
 				}
 				sort.Strings(ks)
 				return strings.Join(ks, ",") + fmt.Sprintf("|%d", w.pw.Pool.NumRemotes())
